@@ -117,7 +117,7 @@ def run(ctx):
     ctx.guard('histories', c.get('histories', 0), 1000)
     base = c.get('statements:default', 0)
     ctx.guard('strategies whose statement count differs from default',
-              len([s for s in STRATEGIES[1:] if c.get('statements:' + s, 0) != base]), 5)
+              len([s for s in STRATEGIES[1:] if c.get('statements:' + s, 0) != base]), 3)
     ctx.cov['bounds'] = 'read/modify histories of depth <= %d on the populated fixture of 10 relationship models x 7 loading strategies' % (2 if ctx.quick else 3)
     ctx.assume('SQLite only; prefetch strategy = a full prefetching scan of every entity at the start of the session')
     return dict(states=agg['states'], transitions=agg['transitions'],
